@@ -10,11 +10,18 @@ From Coq Require Import NArith.
 From Ford Require Import Base.Str Out.Graph Out.GraphSpec.
 
 Record igraph := mkI {
-  i_nodes : list nat; i_labels : list (nat * str); i_edges : list edge;
-  i_trunc : option nat; i_hop : list nat }.
+  i_nodes : list nat; i_edges : list edge; i_trunc : option nat; i_hop : list nat }.
+(* compact edge constructors for the generated case files *)
+Definition Es (t h : nat) : edge := mkE t h false [].
+Definition Ed (t h : nat) : edge := mkE t h true [].
+(* large depths are written q * kilo + r so that the case files carry no long unary numerals *)
+Definition kilo : nat := 1000.
 
 Definition run_t := list (greq * igraph).
-Definition case := (world * list nat * list nat * bool * list run_t)%type.
+(* world, registered entities, entities with graph: false, show_proc_parent,
+   node labels as written in the DOT sources (one per node: the harness checks they agree across graphs),
+   the runs *)
+Definition case := (world * list nat * list nat * bool * list (nat * str) * list run_t)%type.
 
 (* ------------------------------------------------------------------ model = implementation *)
 Definition edge_eqb (a b : edge) : bool :=
@@ -32,12 +39,12 @@ Fixpoint perm_eqb (a b : list edge) : bool :=
   | e :: a' => match remove1 e b with Some b' => perm_eqb a' b' | None => false end
   end.
 
-Definition same_graph (w : world) (show : bool) (g : gstate) (i : igraph) : bool :=
+Definition same_graph (g : gstate) (i : igraph) : bool :=
   set_eqb (g_nodes g) (i_nodes i) && Nat.eqb (length (g_nodes g)) (length (i_nodes i)) &&
   perm_eqb (g_edges g) (i_edges i) && opt_eqb Nat.eqb (g_trunc g) (i_trunc i) &&
-  set_eqb (g_hopn g) (i_hop i) &&
-  forallb (fun nl => str_eqb (node_label w show (fst nl)) (snd nl)) (i_labels i) &&
-  set_eqb (map fst (i_labels i)) (i_nodes i).
+  set_eqb (g_hopn g) (i_hop i).
+Definition labels_match (w : world) (show : bool) (labels : list (nat * str)) : bool :=
+  forallb (fun nl => str_eqb (node_label w show (fst nl)) (snd nl)) labels.
 
 Fixpoint all2 {A B} (f : A -> B -> bool) (a : list A) (b : list B) : bool :=
   match a, b with
@@ -46,13 +53,21 @@ Fixpoint all2 {A B} (f : A -> B -> bool) (a : list A) (b : list B) : bool :=
   | _, _ => false
   end.
 
-Definition run_matches (w : world) (regs : list nat) (show : bool) (r : run_t) : bool :=
+Definition run_matches (w : world) (regs : list nat) (r : run_t) : bool :=
   let qs := map fst r in
-  all2 (same_graph w show) (run w regs qs) (map snd r) &&
+  all2 same_graph (run w regs qs) (map snd r) &&
   negb (r_err (final_state w (registry w regs) qs)).
 
 (* ------------------------------------------------------------------ the property on FORD's graphs *)
 Definition dcap (w : world) (d : nat) : nat := Nat.min d (S (length w)).
+
+(* declarations of every entity, computed once per case *)
+Definition decl_table (w : world) : list (nat * list decl) := map (fun ke => (fst ke, decls w (fst ke))) w.
+Fixpoint tab_get (tab : list (nat * list decl)) (x : nat) : list decl :=
+  match tab with
+  | [] => []
+  | (k, v) :: tab' => if Nat.eqb x k then v else tab_get tab' x
+  end.
 
 (* hop by hop while the neighbourhood fits into max_nodes *)
 Fixpoint fit_hops (succs : nat -> list nat) (maxn : N) (k : nat) (cur : list nat) : list nat :=
@@ -67,52 +82,59 @@ Fixpoint fit_hops (succs : nat -> list nat) (maxn : N) (k : nat) (cur : list nat
 Definition spec_nodes (succs : nat -> list nat) (roots : list nat) (depth : nat) (maxn : N) : list nat :=
   fit_hops succs maxn depth (nd roots).
 
-Definition all_succ (w : world) (x : nat) : list nat := map d_target (decls w x).
 (* nodes that exist once every registered entity has been registered: the closure of the
    registered entities under every declared relation *)
-Definition early (w : world) (regs : list nat) : list nat := reach_b (all_succ w) regs (S (length w)).
+Definition early (w : world) (dl : nat -> list decl) (regs : list nat) : list nat :=
+  fit_hops (fun x => map d_target (dl x)) (N.of_nat (S (length w) * S (length w))) (S (length w)) (nd regs).
 
 Definition q_depth (w : world) (q : greq) : nat :=
   dcap w (shown_depth (class_nested (q_class q)) (max_depth (q_limits q))).
 
-Definition expected_nodes (w : world) (univ : list nat) (q : greq) : list nat :=
+Definition expected_nodes (w : world) (dl : nat -> list decl) (univ : list nat) (q : greq) : list nat :=
   let c := q_class q in
-  spec_nodes (if class_inverse c then declared_pred w c univ else declared_succ w c)
+  spec_nodes (if class_inverse c then declared_pred_f dl c univ else declared_succ_f dl c)
              (q_roots q) (q_depth w q) (max_nodes (q_limits q)).
 
 (* every arrow t -> h is a declared relation "t uses / extends / contains / calls / implements / depends on h" *)
-Definition edges_declared (w : world) (c : gclass) (es : list edge) : bool :=
-  forallb (fun e => memn (e_head e) (declared_succ w c (e_tail e))) es.
-Definition edges_reversed (w : world) (c : gclass) (es : list edge) : bool :=
-  forallb (fun e => memn (e_tail e) (declared_succ w c (e_head e))) es.
+Definition edges_declared (dl : nat -> list decl) (c : gclass) (es : list edge) : bool :=
+  forallb (fun e => memn (e_head e) (declared_succ_f dl c (e_tail e))) es.
+Definition edges_reversed (dl : nat -> list decl) (c : gclass) (es : list edge) : bool :=
+  forallb (fun e => memn (e_tail e) (declared_succ_f dl c (e_head e))) es.
 
 (* CallGraph as the code counts: every callee of every root plus every root *)
-Definition callgraph_quirk (w : world) (q : greq) (i : igraph) : bool :=
+Definition callgraph_quirk (dl : nat -> list decl) (q : greq) (i : igraph) : bool :=
   match q_class q with
   | GCall =>
-    let nb := nd (flat_map (declared_succ w GCall) (q_roots q)) in
+    let nb := nd (flat_map (declared_succ_f dl GCall) (q_roots q)) in
     set_eqb (i_nodes i) (q_roots q) &&
     (max_nodes (q_limits q) <? N.of_nat (length nb + length (nd (q_roots q))))%N
   | _ => false
   end.
 
-(* (unexplained violation, region mask) of one graph *)
-Definition graph_spec (w : world) (regs nograph univ : list nat) (q : greq) (i : igraph) : bool * nat :=
+(* (unexplained violation, region mask) of one graph; [erl] = nodes existing after registration *)
+Definition graph_spec (w : world) (dl : nat -> list decl) (erl nograph univ : list nat) (q : greq) (i : igraph)
+  : bool * nat :=
   let c := q_class q in
   let dangling := negb (no_dangling_b (i_nodes i) (i_edges i)) in
-  let dir_ok := edges_declared w c (i_edges i) in
-  let dir_rev := match c with GFile => edges_reversed w c (i_edges i) | _ => false end in
-  let nodes_ok := set_eqb (i_nodes i) (expected_nodes w univ q) in
-  let nodes_lazy := class_inverse c && set_eqb (i_nodes i) (expected_nodes w (early w regs) q) in
-  let nodes_quirk := callgraph_quirk w q i in
+  let dir :=      (* 0 fine, 1 explained (file graph drawn backwards), 2 wrong *)
+    if edges_declared dl c (i_edges i) then 0
+    else match c with GFile => if edges_reversed dl c (i_edges i) then 1 else 2 | _ => 2 end in
+  let nodes :=    (* 0 fine, 1 lazy inverse, 2 call-graph counting, 3 wrong *)
+    if set_eqb (i_nodes i) (expected_nodes w dl univ q) then 0
+    else if (if class_inverse c then set_eqb (i_nodes i) (expected_nodes w dl erl q) else false) then 1
+    else if callgraph_quirk dl q i then 2 else 3 in
   let hidden := filter (fun x => memn x nograph) (i_nodes i) in
   let hidden_roots := existsb (fun x => memn x nograph) (q_roots q) in
-  let hidden_nb := forallb (fun x => existsb (fun r => memn x (declared_succ w c r)) (q_roots q)) hidden in
-  let hidden_bad := negb (class_nested c) && match hidden with [] => false | _ => true end in
-  (dangling || (negb dir_ok && negb dir_rev) || (negb nodes_ok && negb nodes_lazy && negb nodes_quirk)
-   || hidden_roots || (hidden_bad && negb hidden_nb),
-   (if hidden_bad && hidden_nb then 1 else 0) + (if negb nodes_ok && nodes_lazy then 2 else 0) +
-   (if negb dir_ok && dir_rev then 4 else 0) + (if negb nodes_ok && negb nodes_lazy && nodes_quirk then 8 else 0)).
+  let hid :=      (* 0 fine, 1 explained (neighbour of a root in a project-wide graph), 2 wrong *)
+    match hidden with
+    | [] => 0
+    | _ => if class_nested c then 0
+           else if forallb (fun x => existsb (fun r => memn x (declared_succ_f dl c r)) (q_roots q)) hidden
+                then 1 else 2
+    end in
+  (dangling || Nat.eqb dir 2 || Nat.eqb nodes 3 || hidden_roots || Nat.eqb hid 2,
+   (if Nat.eqb hid 1 then 1 else 0) + (if Nat.eqb nodes 1 then 2 else 0) +
+   (if Nat.eqb dir 1 then 4 else 0) + (if Nat.eqb nodes 2 then 8 else 0)).
 
 (* a "calls"-type graph of a and the matching "called by"-type graph of b agree on the arrow a -> b *)
 Definition has_arrow (a b : nat) (es : list edge) : bool :=
@@ -135,26 +157,31 @@ Definition inverse_pairs_ok (r : run_t) : bool :=
       forallb (fun qj =>
         match q_roots (fst qj) with
         | [b] =>
-          if gclass_eqb (q_class (fst qj)) ci && hop1_present (snd qi) && hop1_present (snd qj)
-          then Bool.eqb (has_arrow a b (i_edges (snd qi))) (has_arrow a b (i_edges (snd qj)))
+          if gclass_eqb (q_class (fst qj)) ci then
+            if hop1_present (snd qi) && hop1_present (snd qj)
+            then Bool.eqb (has_arrow a b (i_edges (snd qi))) (has_arrow a b (i_edges (snd qj)))
+            else true
           else true
         | _ => true
         end) r
     | _, _ => true
     end) r.
 
-Definition run_spec (w : world) (regs nograph : list nat) (r : run_t) : bool * nat :=
+Definition run_spec (w : world) (dl : nat -> list decl) (erl nograph : list nat) (r : run_t) : bool * nat :=
   let univ := nd (flat_map (fun qi => i_nodes (snd qi)) r) in
   fold_left (fun acc qi =>
-               let v := graph_spec w regs nograph univ (fst qi) (snd qi) in
+               let v := graph_spec w dl erl nograph univ (fst qi) (snd qi) in
                (fst acc || fst v, Nat.lor (snd acc) (snd v)))
             r (negb (inverse_pairs_ok r), 0).
 
 Definition judge (c : case) : nat :=
   match c with
-  | (w, regs, nograph, show, runs) =>
-    let mm := negb (forallb (run_matches w regs show) runs) in
-    let sp := fold_left (fun acc r => let v := run_spec w regs nograph r in
+  | (w, regs, nograph, show, labels, runs) =>
+    let tab := decl_table w in
+    let dl := tab_get tab in
+    let erl := early w dl regs in
+    let mm := negb (forallb (run_matches w regs) runs && labels_match w show labels) in
+    let sp := fold_left (fun acc r => let v := run_spec w dl erl nograph r in
                                       (fst acc || fst v, Nat.lor (snd acc) (snd v))) runs (false, 0) in
     verdict mm (fst sp) (snd sp)
   end.
@@ -162,15 +189,18 @@ Definition judge (c : case) : nat :=
 (* per-graph detail for replays: (run, graph index, model-mismatch, unexplained, regions) *)
 Definition detail (c : case) : list (nat * nat * bool * bool * nat) :=
   match c with
-  | (w, regs, nograph, show, runs) =>
+  | (w, regs, nograph, show, labels, runs) =>
+    let tab := decl_table w in
+    let dl := tab_get tab in
+    let erl := early w dl regs in
     flat_map (fun kr =>
       let r := snd kr in
       let univ := nd (flat_map (fun qi => i_nodes (snd qi)) r) in
       let gs := run w regs (map fst r) in
       flat_map (fun x =>
         let '(j, (qi, g)) := x in
-        let v := graph_spec w regs nograph univ (fst qi) (snd qi) in
-        let mm := negb (same_graph w show g (snd qi)) in
+        let v := graph_spec w dl erl nograph univ (fst qi) (snd qi) in
+        let mm := negb (same_graph g (snd qi)) in
         if mm || fst v || negb (Nat.eqb (snd v) 0) then [(fst kr, j, mm, fst v, snd v)] else [])
         (combine (seq 0 (length r)) (combine r gs)))
       (combine (seq 0 (length runs)) runs)
